@@ -418,8 +418,9 @@ macro_rules! server_run {
                                 let ev2 = ev.clone();
                                 ev.borrow_mut().push(format!("OStarted {id}"));
                                 let fut = req.execute(tarpc::server::serve(move |_ctx: context::Context, m: String| {
-                                    let mut g = HandlerGuard { id, done: false, ev: ev2 };
+                                    let g = HandlerGuard { id, done: false, ev: ev2 };
                                     async move {
+                                        let mut g = g;
                                         if hang {
                                             futures::future::pending::<()>().await;
                                         }
